@@ -673,3 +673,71 @@ H("endpoint_reset_token_event_native", ["C08", "C09"], "replay-only", "endpoint:
   [("same_addr", "bool")], 4, [], ["Endpoint::handle_event (ResetToken, Drained)"], "native replay body of E2 query e2_endpoint_reset_token_event")
 H("conn_on_packet_authenticated_native", ["C04"], "replay-only", "connection::on_packet_authenticated_native",
   [("has_pn", "bool")], 4, [], ["Connection::on_packet_authenticated"], "native replay body of E2 query e2_on_packet_authenticated")
+
+# ------------------------------------------------------------------ transport_parameters.rs (C10, C03.e)
+H("tp_roundtrip_ints", ["C10"], "thorough", "transport_parameters::roundtrip_ints", [("v", "[u16; 11]"), ("server", "bool")], 24,
+  ["round-tripped"], ["TransportParameters::write", "TransportParameters::read", "TransportParameters::default"],
+  "all 11 integer parameters present with arbitrary values of fixed varint width (64..16383; ack_delay_exponent 0..=20 except the default); default write order", heavy=True, timeout=1700)
+H("tp_resumption", ["C03", "C10"], "quick", "transport_parameters::resumption",
+  [("a", "[u64; 8]"), ("b", "[u64; 8]"), ("ga", "bool"), ("gb", "bool"), ("da", "bool"), ("db", "bool")], 10,
+  ["accepted", "rejected"], ["TransportParameters::validate_resumption_from"], "every pair of parameter sets with values < 2^62")
+H("tp_read_one_01_len1", ["C03", "C10"], "quick", "transport_parameters::read_one_int",
+  [("id", "u8", 1), ("len", "u8", 1), ("value", "[u8; 8]"), ("server", "bool")], 10,
+  ["accepted", "rejected"], ["TransportParameters::read"],
+  "parameter max_idle_timeout alone with declared length 1: every 8 value bytes")
+H("tp_read_one_01_len2", ["C03", "C10"], "thorough", "transport_parameters::read_one_int",
+  [("id", "u8", 1), ("len", "u8", 2), ("value", "[u8; 8]"), ("server", "bool")], 10,
+  ["accepted", "rejected"], ["TransportParameters::read"],
+  "parameter max_idle_timeout alone with declared length 2: every 8 value bytes", heavy=True, timeout=1700)
+H("tp_read_one_03_len1", ["C03", "C10"], "quick", "transport_parameters::read_one_int",
+  [("id", "u8", 3), ("len", "u8", 1), ("value", "[u8; 8]"), ("server", "bool")], 10,
+  [None, "rejected"], ["TransportParameters::read"],
+  "parameter max_udp_payload_size alone with declared length 1: every 8 value bytes")
+H("tp_read_one_03_len2", ["C03", "C10"], "thorough", "transport_parameters::read_one_int",
+  [("id", "u8", 3), ("len", "u8", 2), ("value", "[u8; 8]"), ("server", "bool")], 10,
+  ["accepted", "rejected"], ["TransportParameters::read"],
+  "parameter max_udp_payload_size alone with declared length 2: every 8 value bytes", heavy=True, timeout=1700)
+H("tp_read_one_04_len1", ["C03", "C10"], "quick", "transport_parameters::read_one_int",
+  [("id", "u8", 4), ("len", "u8", 1), ("value", "[u8; 8]"), ("server", "bool")], 10,
+  ["accepted", "rejected"], ["TransportParameters::read"],
+  "parameter initial_max_data alone with declared length 1: every 8 value bytes")
+H("tp_read_one_05_len1", ["C03", "C10"], "quick", "transport_parameters::read_one_int",
+  [("id", "u8", 5), ("len", "u8", 1), ("value", "[u8; 8]"), ("server", "bool")], 10,
+  ["accepted", "rejected"], ["TransportParameters::read"],
+  "parameter initial_max_stream_data_bidi_local alone with declared length 1: every 8 value bytes")
+H("tp_read_one_06_len1", ["C03", "C10"], "quick", "transport_parameters::read_one_int",
+  [("id", "u8", 6), ("len", "u8", 1), ("value", "[u8; 8]"), ("server", "bool")], 10,
+  ["accepted", "rejected"], ["TransportParameters::read"],
+  "parameter initial_max_stream_data_bidi_remote alone with declared length 1: every 8 value bytes")
+H("tp_read_one_07_len1", ["C03", "C10"], "quick", "transport_parameters::read_one_int",
+  [("id", "u8", 7), ("len", "u8", 1), ("value", "[u8; 8]"), ("server", "bool")], 10,
+  ["accepted", "rejected"], ["TransportParameters::read"],
+  "parameter initial_max_stream_data_uni alone with declared length 1: every 8 value bytes")
+H("tp_read_one_08_len1", ["C03", "C10"], "quick", "transport_parameters::read_one_int",
+  [("id", "u8", 8), ("len", "u8", 1), ("value", "[u8; 8]"), ("server", "bool")], 10,
+  ["accepted", "rejected"], ["TransportParameters::read"],
+  "parameter initial_max_streams_bidi alone with declared length 1: every 8 value bytes")
+H("tp_read_one_08_len8", ["C03", "C10"], "thorough", "transport_parameters::read_one_int",
+  [("id", "u8", 8), ("len", "u8", 8), ("value", "[u8; 8]"), ("server", "bool")], 10,
+  ["accepted", "rejected"], ["TransportParameters::read"],
+  "parameter initial_max_streams_bidi alone with declared length 8: every 8 value bytes", heavy=True, timeout=1700)
+H("tp_read_one_09_len1", ["C03", "C10"], "quick", "transport_parameters::read_one_int",
+  [("id", "u8", 9), ("len", "u8", 1), ("value", "[u8; 8]"), ("server", "bool")], 10,
+  ["accepted", "rejected"], ["TransportParameters::read"],
+  "parameter initial_max_streams_uni alone with declared length 1: every 8 value bytes")
+H("tp_read_one_0a_len1", ["C03", "C10"], "quick", "transport_parameters::read_one_int",
+  [("id", "u8", 10), ("len", "u8", 1), ("value", "[u8; 8]"), ("server", "bool")], 10,
+  ["accepted", "rejected"], ["TransportParameters::read"],
+  "parameter ack_delay_exponent alone with declared length 1: every 8 value bytes")
+H("tp_read_one_0b_len1", ["C03", "C10"], "quick", "transport_parameters::read_one_int",
+  [("id", "u8", 11), ("len", "u8", 1), ("value", "[u8; 8]"), ("server", "bool")], 10,
+  ["accepted", "rejected"], ["TransportParameters::read"],
+  "parameter max_ack_delay alone with declared length 1: every 8 value bytes")
+H("tp_read_one_0b_len4", ["C03", "C10"], "thorough", "transport_parameters::read_one_int",
+  [("id", "u8", 11), ("len", "u8", 4), ("value", "[u8; 8]"), ("server", "bool")], 10,
+  ["accepted", "rejected"], ["TransportParameters::read"],
+  "parameter max_ack_delay alone with declared length 4: every 8 value bytes", heavy=True, timeout=1700)
+H("tp_read_one_0e_len1", ["C03", "C10"], "quick", "transport_parameters::read_one_int",
+  [("id", "u8", 14), ("len", "u8", 1), ("value", "[u8; 8]"), ("server", "bool")], 10,
+  ["accepted", "rejected"], ["TransportParameters::read"],
+  "parameter active_connection_id_limit alone with declared length 1: every 8 value bytes")
